@@ -2,6 +2,9 @@ import Sudachi.Proofs.Sentence
 import Sudachi.Proofs.SentenceConv
 import Sudachi.Proofs.SentenceSame
 import Sudachi.Proofs.SentenceFix
+import Sudachi.Proofs.SentenceTotal
+import Sudachi.Proofs.SentenceBytes
+import Sudachi.Proofs.SentenceRegex
 /-!
 # C16 — Sentence splitting partitions the text and breaks only after terminators
 
@@ -12,8 +15,16 @@ without a dictionary checker (any list of lexicons, each any list of byte-string
 
 `split … = .ok l` is the list of `(range.start, range.end, slice)` the iterator yields;
 `.panic` = the Rust code panics (only possible in `has_non_break_word` when a key matches from inside
-a character, which valid UTF-8 keys cannot); `.fuelOut` = the iterator did not stop after
+a character, which valid UTF-8 keys cannot: `checker_never_panics`); `.fuelOut` = the iterator did not stop after
 `text.length` calls of `next`.
+
+Second round (depth): `split_total_partition` (termination + panic-freedom + partition in one statement,
+no fuel, for every checker whose keys are valid UTF-8), `no_slice_off_boundary` (the byte-offset
+transcription `getEosB`/`splitB`, in which every `&s[a..b]` of the Rust code can panic, equals the
+character-index model — no slice is ever off a boundary or out of range), `checker_never_panics`
+(UTF-8 self-synchronisation), the window-edge clause (`no_break_at_window_edge_inside_word`,
+`window_vs_whole_witness`) and declarative regex specifications of four of the patterns
+(`*_regex_spec`).  The driver answers with the byte-offset functions.
 
 Every function takes the variant `v : CkVariant` of the `Ordering::Equal` arm of `has_non_break_word`:
 `.cur` = the code as it was (`input[i..].chars().take(2).count() > 1`, returned at once — defect D12),
@@ -395,6 +406,170 @@ theorem d13_counterexample (v : CkVariant) :
 theorem limit_zero_counterexample (v : CkVariant) : split v 0 none [0x3042] = .fuelOut := by
   cases v <;> decide
 
+/-! ## second round: totality, byte offsets, the window edge, regex specifications -/
+
+/-- **Termination, panic-freedom and partition, full strength, no fuel.**  For every text (with or
+without terminators, shorter or longer than the window), every window limit `≥ 1`, both variants of
+the checker arm and every checker whose dictionary keys are valid UTF-8 (`ValidChecker`: no checker, or
+every key is `utf8` of some text — the lexicon's keys are Rust `String`s): the iteration **produces** a
+list of sentences (it neither panics nor runs on), the ranges are non-empty, contiguous from byte 0 to
+the byte length of the text, each as long as its slice, and the slices concatenate to the text. -/
+theorem split_total_partition (v : CkVariant) (limit : Nat) (hl : 1 ≤ limit)
+    (ck : Option (List (List (List Nat)))) (hv : ValidChecker ck) (text : Text) :
+    ∃ l, split v limit ck text = .ok l ∧ Contig 0 l (blen text) ∧ (l.map (·.chunk)).flatten = text := by
+  obtain ⟨l, h⟩ := split_total (v := v) hl hv text
+  exact ⟨l, h, (split_partition v limit hl ck text).2 l h⟩
+
+/-- **The fuel of the model is irrelevant**: `split` runs `splitFuel` with `text.length` calls of `next`;
+any larger number of calls gives the same answer (with `split_partition`: never `.fuelOut`). -/
+theorem split_fuel_irrelevant (v : CkVariant) (limit : Nat) (hl : 1 ≤ limit)
+    (ck : Option (List (List (List Nat)))) (text : Text) (fuel : Nat) (hf : text.length ≤ fuel) :
+    splitFuel v limit ck fuel 0 text = split v limit ck text :=
+  splitFuel_mono hl fuel text.length 0 text hf (Nat.le_refl _)
+
+/-- **Why the iterator terminates (the measure)**: on a non-empty rest, a non-negative answer of
+`get_eos` consumes at least one and at most all remaining characters, and a negative (provisional)
+answer `-e` has `e ≥ 1` and makes `next` take the whole rest, after which the iterator is exhausted. -/
+theorem next_consumes (v : CkVariant) (limit : Nat) (hl : 1 ≤ limit) (ck : Option (List (List (List Nat))))
+    (c : Nat) (cs : Text) (position fuel : Nat) :
+    (∀ e, getEos v limit ck (c :: cs) = .ok (.pos e) → 1 ≤ e ∧ e ≤ (c :: cs).length) ∧
+    (∀ e, getEos v limit ck (c :: cs) = .ok (.neg e) → 1 ≤ e ∧
+      splitFuel v limit ck (fuel + 1) position (c :: cs) =
+        .ok [⟨position, position + blen (c :: cs), c :: cs⟩]) := by
+  refine ⟨fun e h => getEos_pos_bounds hl (by simp) h, fun e h => ⟨getEos_neg_pos h, ?_⟩⟩
+  simp [splitFuel, h]
+
+/-- **What `strSlice` means**: the model's `&s[a..b]` answers a string exactly when `a ≤ b` are two
+character boundaries inside `s` (`s = pre ++ t ++ post`, `a` = bytes of `pre`, `b` = bytes of
+`pre ++ t`); in every other case it is `none`, which the byte-offset functions turn into `panic`. -/
+theorem str_slice_iff (s t : Text) (a b : Nat) :
+    strSlice s a b = some t ↔ ∃ pre post, s = pre ++ t ++ post ∧ blen pre = a ∧ blen pre + blen t = b :=
+  strSlice_iff
+
+/-- **No slice is ever off a character boundary or out of range** (stated over byte offsets).
+`getEosB` / `splitB` transcribe `get_eos` / `SentenceIter::next` with the byte arithmetic of the Rust
+code (`mat.end()`, `eos += prohibited_bos(..)`, `eos - last_char_len`, `position + rv as usize`,
+`-(mat.end() as isize)`, `data.len()`), and every `&s[..eos]`, `&s[eos..]`, `&s[(eos - last_char_len)..]`,
+`&data[position..]`, `&data[position..end]` is taken with `strSlice`, a `none` becoming `panic`.  For
+**every** input, limit (0 included), variant and checker they equal the character-index functions
+(offsets read through `blen (·.take ·)`): the additional panic outcomes do not exist. -/
+theorem no_slice_off_boundary (v : CkVariant) (limit : Nat) (ck : Option (List (List (List Nat))))
+    (text : Text) :
+    getEosB v limit ck text = (getEos v limit ck text).mapR (eosValue text) ∧
+    splitB v limit ck text = split v limit ck text :=
+  ⟨getEosB_eq v limit ck text, splitB_eq v limit ck text⟩
+
+/-- the full clause on the byte-offset functions (what the driver runs and the harness compares) -/
+theorem split_bytes_total_partition (v : CkVariant) (limit : Nat) (hl : 1 ≤ limit)
+    (ck : Option (List (List (List Nat)))) (hv : ValidChecker ck) (text : Text) :
+    ∃ l, splitB v limit ck text = .ok l ∧ Contig 0 l (blen text) ∧ (l.map (·.chunk)).flatten = text ∧
+      ∀ x ∈ l, strSlice text x.b x.e = some x.chunk := by
+  obtain ⟨l, h, hc, hf⟩ := split_total_partition v limit hl ck hv text
+  refine ⟨l, by rw [splitB_eq]; exact h, hc, hf, ?_⟩
+  intro x hx
+  obtain ⟨pre, post, hs, hb, he, _⟩ := sentences_are_slices v limit hl ck text l h x hx
+  rw [str_slice_iff]
+  exact ⟨pre, post, hs, hb.symm, by rw [he, blen_append]⟩
+
+/-- **A dictionary match is a slice of whole characters** (UTF-8 self-synchronisation): when the keys
+are valid UTF-8, every length the lookup reports at byte offset `i` of the text's bytes — `i` inside a
+character included, the look-back may start there — belongs to a key that starts at a character
+boundary and ends at one: `input[i..i+len]` never panics. -/
+theorem dictionary_match_is_on_boundaries (lexs : List (List (List Nat))) (hv : ValidKeys lexs)
+    (input : Text) (i len : Nat) (h : len ∈ lookupLens lexs ((utf8 input).drop i)) :
+    ∃ pre w post, input = pre ++ w ++ post ∧ blen pre = i ∧ blen w = len :=
+  lookup_sliceOk hv h
+
+/-- **`has_non_break_word` never panics** for valid UTF-8 keys, both variants of the `Equal` arm, every
+text and every candidate byte offset (was "not proved" in round 1). -/
+theorem checker_never_panics (v : CkVariant) (lexs : List (List (List Nat))) (hv : ValidKeys lexs)
+    (input : Text) (eosB : Nat) : hasNonBreakWord v lexs input eosB ≠ .panic :=
+  hasNonBreakWord_no_panic v hv input eosB
+
+/-- `get_eos` never panics (valid UTF-8 keys), any limit -/
+theorem get_eos_never_panics (v : CkVariant) (limit : Nat) (ck : Option (List (List (List Nat))))
+    (hv : ValidChecker ck) (input : Text) :
+    getEos v limit ck input ≠ .panic ∧ getEosB v limit ck input ≠ .panic := by
+  have h := getEos_no_panic (v := v) hv limit input
+  refine ⟨h, ?_⟩
+  rw [getEosB_eq]
+  cases hg : getEos v limit ck input with
+  | ok r => simp [Res.mapR]
+  | panic => exact absurd hg h
+
+/-- **The window edge** (clause "no break inside a multi-character dictionary word that contains the
+terminator", for texts longer than the window).  `get_eos` looks for terminators in the first `limit`
+characters only, but the checker is given the **whole** remaining text: if a dictionary key that
+starts within the 30-byte look-back before the end of the window continues **beyond** the window
+(`key <+: (utf8 input).drop i` is about all bytes of `input`, not of `input.take limit`), then
+`get_eos` does not answer the window end as a sentence end — for both variants of the checker arm. -/
+theorem no_break_at_window_edge_inside_word (v : CkVariant) (limit : Nat) (hl : 1 ≤ limit)
+    (lexs : List (List (List Nat))) (input : Text) (hne : input ≠ [])
+    (i : Nat) (lex : List (List Nat)) (hlex : lex ∈ lexs) (key : List Nat) (hkey : key ∈ lex)
+    (hpre : key <+: (utf8 input).drop i)
+    (h1 : blen (input.take limit) - 30 ≤ i) (h2 : i < blen (input.take limit))
+    (h3 : blen (input.take limit) < i + key.length) :
+    getEos v limit (some lexs) input ≠ .ok (.pos limit) := by
+  intro h
+  have hkne : key ≠ [] := by
+    intro hn; subst hn; simp at h3; omega
+  cases v with
+  | cur =>
+    have := no_break_in_multichar_word limit hl lexs input hne limit h i h1 h2 lex hlex key hkey hkne hpre
+    omega
+  | fix =>
+    have := no_break_in_multichar_word_fix limit hl lexs input hne limit h i h1 h2 lex hlex key hkey hkne hpre
+    omega
+
+/-- **The checker must see the whole text, not the window** (the change `has_non_break_word(s, eos)`
+instead of `(input, eos)` is a different function).  `ばな。なです。`, window 3, dictionary `{な。な}`:
+the terminator is the last character of the window and lies inside the dictionary word; with the whole
+text the loop body vetoes the candidate, with the window it would accept it; `get_eos` answers the
+provisional `-9` and the text stays one sentence. -/
+theorem window_vs_whole_witness (v : CkVariant) :
+    let input : Text := [0x3070, 0x306A, 0x3002, 0x306A, 0x3067, 0x3059, 0x3002]
+    let lexs : List (List (List Nat)) := [[[0xE3, 0x81, 0xAA, 0xE3, 0x80, 0x82, 0xE3, 0x81, 0xAA]]]
+    examine v (some lexs) input (input.take 3) 3 = .veto ∧
+    examine v (some lexs) (input.take 3) (input.take 3) 3 = .accept 3 ∧
+    getEos v 3 (some lexs) input = .ok (.neg 3) ∧
+    getEosB v 3 (some lexs) input = .ok (-9) ∧
+    split v 3 (some lexs) input = .ok [⟨0, 21, input⟩] := by
+  cases v <;> decide
+
+/-- ITEMIZE_HEADER `^([AN])([DOT])$`: `isItemizeHeader` = "the whole window is in the language of
+`([AN])([DOT])`" -/
+theorem itemize_header_regex_spec (s : Text) : isItemizeHeader s = true ↔ reItemize.Matches s :=
+  isItemizeHeader_spec s
+
+/-- EOS_ITEMIZE_HEADER `([AN])([DOT])\z`: `endsWithItemize` (on the reversed text) = "some suffix of the
+text is in the language of `([AN])([DOT])`" -/
+theorem eos_itemize_header_regex_spec (s : Text) :
+    endsWithItemize s.reverse = true ↔ ∃ pre m, s = pre ++ m ∧ reItemize.Matches m :=
+  endsWithItemize_spec s
+
+/-- PROHIBITED_BOS `\A([CLOSE COMMA PERIODS])+`: `prohibitedBos s` is the length of the longest prefix
+of `s` in the language of `([…])+`, and 0 exactly when no prefix is in it -/
+theorem prohibited_bos_regex_spec (s : Text) :
+    prohibitedBos s ≤ s.length ∧
+    (∀ m, m ≤ s.length → reProhibitedBos.Matches (s.take m) → m ≤ prohibitedBos s) ∧
+    (prohibitedBos s = 0 → ∀ m, m ≤ s.length → ¬ reProhibitedBos.Matches (s.take m)) ∧
+    (prohibitedBos s ≠ 0 → reProhibitedBos.Matches (s.take (prohibitedBos s))) :=
+  prohibitedBos_spec s
+
+/-- QUOTE_MARKER `(！|？|\!|\?|[CLOSE])(と|っ|です)` with `mat.start() == 0`: `quoteMarkerAt0` = "some
+prefix of the haystack is in the language" -/
+theorem quote_marker_regex_spec (s : Text) :
+    quoteMarkerAt0 s = true ↔ ∃ m post, s = m ++ post ∧ reQuoteMarker.Matches m :=
+  quoteMarkerAt0_spec s
+
+/-- PARENTHESIS `([OPEN])|([CLOSE])` with `captures_iter`: the language consists of the one-character
+strings over the two classes, and `parenLevel` is the loop body of `parenthesis_level` (`+1` when group
+1 matched, else `-1` saturating at 0) folded over the matches in text order -/
+theorem parenthesis_regex_spec (s : Text) :
+    (∀ u, reParenthesis.Matches u ↔ ∃ c, u = [c] ∧ (isOpen c = true ∨ isClose c = true)) ∧
+    parenLevel s = (s.filter (fun c => isOpen c || isClose c)).foldl parenBody 0 :=
+  ⟨fun _ => reParenthesis_matches, parenLevel_spec s⟩
+
 /-! ## non-vacuity -/
 
 /-- the hypotheses of the theorems above are satisfiable and the conclusions are not trivially true:
@@ -440,5 +615,58 @@ example : (2 : Nat) ∈ matchEnds 0 none 0 ([0x3042, 0x3002, 0x3042].take 4096) 
     MultiCharWordAt [0x3042, 0x3002, 0x3042] 0 [0xE3, 0x81, 0x82, 0xE3, 0x80, 0x82] := by
   refine ⟨by decide, by decide, by decide, ⟨[0x3042], 0x3002, [0x3042], rfl, by decide, by decide⟩,
     ⟨[], [0x3042, 0x3002], [0x3042], rfl, by decide, by decide, by decide⟩⟩
+
+/-- `ValidKeys` / `ValidChecker` are satisfiable by a real dictionary (`{な。な, 。}`), and `strSlice`
+does answer `none` off a boundary (so `panic` in the byte-offset functions is not vacuous) -/
+example : ValidKeys [[utf8 [0x306A, 0x3002, 0x306A], utf8 [0x3002]]] ∧
+    ValidChecker (some [[utf8 [0x306A, 0x3002, 0x306A]]]) ∧ ValidChecker none ∧
+    strSlice [0x3042, 0x3002] 0 1 = none ∧ strSlice [0x3042, 0x3002] 3 7 = none ∧
+    strSlice [0x3042, 0x3002] 4 3 = none ∧ strSlice [0x3042, 0x3002] 3 6 = some [0x3002] ∧
+    isContinuousPhraseB [0x3042, 0x3002] 4 = none := by
+  refine ⟨?_, ?_, trivial, by decide, by decide, by decide, by decide, by decide⟩
+  · intro lex hlex key hkey
+    simp only [List.mem_singleton] at hlex
+    subst hlex
+    simp only [List.mem_cons, List.not_mem_nil, or_false] at hkey
+    rcases hkey with rfl | rfl
+    · exact ⟨_, rfl⟩
+    · exact ⟨_, rfl⟩
+  · intro lex hlex key hkey
+    simp only [List.mem_singleton] at hlex
+    subst hlex
+    simp only [List.mem_singleton] at hkey
+    subst hkey
+    exact ⟨_, rfl⟩
+
+/-- a key that is not valid UTF-8 (a lone continuation byte `0x82`) does make the model's checker
+panic: the hypothesis `ValidKeys` of `checker_never_panics` is needed -/
+example : hasNonBreakWord .fix [[[0x82]]] [0x3042, 0x3002] 6 = .panic := by decide
+
+/-- the hypotheses of `no_break_at_window_edge_inside_word` are satisfiable on a text longer than the
+window: `ばな。なです。`, window 3 (9 bytes), the key `な。な` matches at byte 3 and ends at byte 12 -/
+example :
+    let input : Text := [0x3070, 0x306A, 0x3002, 0x306A, 0x3067, 0x3059, 0x3002]
+    let key : List Nat := [0xE3, 0x81, 0xAA, 0xE3, 0x80, 0x82, 0xE3, 0x81, 0xAA]
+    3 < input.length ∧ key <+: (utf8 input).drop 3 ∧ blen (input.take 3) - 30 ≤ 3 ∧
+      3 < blen (input.take 3) ∧ blen (input.take 3) < 3 + key.length := by
+  decide
+
+/-- texts without any terminator, shorter and longer than the window, and the provisional boundary at
+the last white space: `あいうえ` (limit 2 → `-6`, one sentence), `あい うえお` (limit 5 → `-7`) -/
+example (v : CkVariant) :
+    getEosB v 2 none [0x3042, 0x3044, 0x3046, 0x3048] = .ok (-6) ∧
+    splitB v 2 none [0x3042, 0x3044, 0x3046, 0x3048] = .ok [⟨0, 12, [0x3042, 0x3044, 0x3046, 0x3048]⟩] ∧
+    getEosB v 5 none [0x3042, 0x3044, 0x20, 0x3046, 0x3048, 0x304A] = .ok (-7) ∧
+    splitB v 5 none [0x3042, 0x3044, 0x20, 0x3046, 0x3048, 0x304A] =
+      .ok [⟨0, 16, [0x3042, 0x3044, 0x20, 0x3046, 0x3048, 0x304A]⟩] := by
+  cases v <;> decide
+
+/-- the regular-expression languages are inhabited: `1.` ∈ `([AN])([DOT])`, `）、。` ∈ `([CLOSE COMMA PERIODS])+`,
+`！です` ∈ QUOTE_MARKER -/
+example : reItemize.Matches [0x31, 0x2E] ∧ reProhibitedBos.Matches [0xFF09, 0x3001, 0x3002] ∧
+    reQuoteMarker.Matches [0xFF01, 0x3067, 0x3059] ∧ prohibitedBos [0xFF09, 0x3001, 0x3002, 0x3042] = 3 := by
+  refine ⟨reItemize_matches.mpr ⟨_, _, rfl, by decide, by decide⟩,
+    matches_plus_cls.mpr ⟨by simp, by decide⟩,
+    reQuoteMarker_matches.mpr ⟨_, Or.inl rfl, Or.inr (Or.inr rfl)⟩, by decide⟩
 
 end C16
